@@ -35,6 +35,8 @@ REPLICAS = ('PlayingPhaseWithHands', 'ObservedPlayingPhase')
 def run(chk):
     repo = chk.repo
     chk.explanation = __doc__
+    from . import playout
+    playout.run(chk, 'C11')      # R5: four replicas in lock-step with the table manager's engine through complete play-outs
     chk.trusted += ['sa.skeleton engine stubs (turn logic as established by C01-C05)', 'C05 path summaries (sa.rules.c05) reused for R2']
     chk.assumptions += ['the observer is given its true hand and the true dummy hand (C10/C19)', 'policies return legal calls and cards (C01, C06)']
     base = repo.cls('PlayingPhase', 'C11.R1')
